@@ -455,6 +455,55 @@ def worker(case, led):
                     led.check(False, "post:BraKetPair.calc_ft:total", "BraKetPair.calc_ft", f"{label}: raised {type(e).__name__}: {e}", key + (label,), {}, rep)
 
 
+def w_normalize(case, led):
+    """normalize(kind) on chain states, density operators and tree states with real, negative and complex prefactors: the tensors become dense/|dense|, the prefactor
+    stays (only), is divided by its modulus (and_coeff) or takes over the norm (norm_to_coeff)"""
+    _, seed = case
+    rng = np.random.default_rng([seed, 303])
+    from renormalizer.model import Model, Op
+    from renormalizer.model.basis import BasisHalfSpin
+    from renormalizer.mps import Mps, MpDm
+    n = 3 + seed % 2
+    model = Model([BasisHalfSpin(i) for i in range(n)], [Op("sigma_z", 0)])
+    np.random.seed(seed + 5)
+    objs = []
+    a = Mps.random(model, 0, 4, percent=1.0)
+    objs.append(("Mps", a, "mps"))
+    ac = a.to_complex()
+    ac[1] = ac[1].array * (0.3 + 0.9j)
+    objs.append(("Mps-complex", ac, "mps"))
+    objs.append(("MpDm", MpDm.from_mps(a), "mps"))
+    try:
+        from renormalizer.tn.tree import from_mps
+        objs.append(("TTNS", from_mps(a)[1], "ttns"))
+    except Exception:
+        pass
+    for label, x0, pre in objs:
+        for c in (1.0, -2.5, 0.6 + 0.3j, -0.2 - 1.1j, 1.7j):
+            for kind in ("only", "and_coeff", "norm_to_coeff"):
+                x = x0.copy()
+                x = x.scale(float(rng.uniform(0.4, 2.5)))
+                x.coeff = c
+                if pre == "ttns":
+                    from vk.specs import tree as T
+                    dense = lambda y: np.asarray(T.dense_ttns(y, list(model.basis), with_coeff=False))
+                else:
+                    dense = lambda y: np.asarray(S.dense(y, with_coeff=False))
+                v = dense(x)
+                nv = float(np.linalg.norm(v))
+                key = ("normalize", label, seed, repr(c), kind)
+                rep = {"object": label, "prefactor": repr(c), "kind": f"{pre}_{kind}", "seed": seed}
+                try:
+                    r = x.normalize(f"{pre}_{kind}")
+                    want_c = {"only": c, "and_coeff": c / abs(c), "norm_to_coeff": c * nv}[kind]
+                    got_c = complex(r.coeff)
+                    w = dense(r)
+                    led.check(np.abs(w - v / nv).max() <= 1e-12 and abs(got_c - want_c) <= 1e-12 * max(1.0, abs(want_c)), "post:normalize:tensors_unit_norm_and_prefactor_by_kind",
+                              "normalize", f"tensors differ from dense/|dense| by {np.abs(w - v / nv).max():.1e}; prefactor {got_c} vs {want_c}", key, {"kind": kind}, rep)
+                except Exception as e:
+                    led.check(False, "post:normalize:total", "normalize", f"raised {type(e).__name__}: {e}", key, {"kind": kind}, rep)
+
+
 def check(run):
     from props import C03_proof, C03_sym
     C03_proof.prove(run)
@@ -462,6 +511,7 @@ def check(run):
     seeds = [run.seed] if run.tier == "quick" else [run.seed, run.seed + 1, run.seed + 2]
     cases = [(name, n, s, run.tier) for name, n in U.chain_cases(run.tier, run.seed) for s in seeds]
     run_cases(run, worker, cases)
+    run_cases(run, w_normalize, [("normalize", run.seed + i) for i in range(2 if run.tier == "quick" else 6)])
     run.rule = ("models {spin, spin+1qn, spin+2qn, electron-phonon, multi-electron} x 1..4(5) sites x <=2(4) sectors x operand gauge histories "
                 "{fresh, canonicalised once/twice, compressed, ensure_left/right, centre moved, partial canonicalise} x {add, sub, scale, conj, dot, "
                 "distance, norm, prefactors, Mpo.apply, operator products/sums/adjoints, charged operators}; non-trivial = >=2 sites and operands in "
